@@ -24,11 +24,15 @@ def _cells_to_cases(cells, r, tag):
             body = []
             exp = []
             for c in chunk:
-                body += nt.group_lines(t, _combo(c["prev"]))
                 t2 = t + c["dist"]
                 n = (1 if c["cur"] == 0 else bin(c["cur"]).count("1")) + int(c["forced"]) + int(c["tap"])
                 order = list(range(n))
                 r.shuffle(order)
+                if c["prev"] == c["cur"] and body and r.random() < 0.5:
+                    # the same lines twice in a row (same lanes, same flags, same order): a note repeated verbatim
+                    body += nt.group_lines(t, _combo(c["prev"]), {}, c["forced"], c["tap"], order)
+                else:
+                    body += nt.group_lines(t, _combo(c["prev"]))
                 body += nt.group_lines(t2, _combo(c["cur"]), {}, c["forced"], c["tap"], order)
                 exp.append((t2, c["h"]))
                 t = t2 + max(1, r.choice([1, 1, (2 * res + 3) // 6, (2 * res + 3) // 6 + 1, 4 * res + 1, 7]))
